@@ -70,6 +70,27 @@ fn enc_buf_n(n: usize, p: &[u8]) -> Result<Vec<u8>, i64> {
     }
     crate::with_arraybuf!(n, go)
 }
+/// encode::<Vec<u8>> fed by an open-ended iterator (size_hint upper bound usize::MAX) that yields exactly p
+fn enc_buf_vec_iter(p: &[u8]) -> Result<Vec<u8>, i64> {
+    match catch_unwind(AssertUnwindSafe(|| encode::<Vec<u8>>((0..usize::MAX).map_while(|i| p.get(i).copied())))) {
+        Ok(Ok(v)) => Ok(v),
+        Ok(Err(_)) => Err(3),
+        Err(_) => Err(8),
+    }
+}
+/// encode::<ArrayBuf<N>> fed by a filtered iterator (size_hint (0, Some(2|p|))) that yields exactly p
+fn enc_buf_n_iter(n: usize, p: &[u8]) -> Result<Vec<u8>, i64> {
+    macro_rules! go {
+        ($k:literal) => {
+            match catch_unwind(AssertUnwindSafe(|| encode::<ArrayBuf<$k>>((0..2 * p.len()).filter(|i| i % 2 == 0).map(|i| p[i / 2])))) {
+                Ok(Ok(v)) => Ok(v.to_vec()),
+                Ok(Err(_)) => Err(3),
+                Err(_) => Err(8),
+            }
+        };
+    }
+    crate::with_arraybuf!(n, go)
+}
 /// iterator encoder; returns bytes and how many of `extra` additional next() calls returned Some
 fn enc_iter(p: &[u8], extra: usize) -> Result<(Vec<u8>, usize), i64> {
     match catch_unwind(AssertUnwindSafe(|| {
@@ -253,7 +274,8 @@ pub fn payload_family(tier: &str, rng: &mut Rng) -> Vec<Vec<u8>> {
 /// C01 / C07 records: one per payload.
 ///  {"p":payload,"encs":[{"k":kind,"f":[enc ids],"b":bytes}], "obs":[...front-end groups on the frame...],
 ///   "caps":[[cap, kind]...], "fused": somes }
-/// enc ids: 1 encode::<Vec>, 2 encode::<ArrayBuf<N>> with N >= frame length, 3 encode_streaming
+/// enc ids: 1 encode::<Vec>, 2 encode::<ArrayBuf<N>> with N >= frame length, 3 encode_streaming,
+///          4 / 5 = 1 / 2 fed through iterators with an inexact size_hint
 /// kind: 0 ok, 3 out-of-memory, 8 panic, 12 runaway
 pub fn cmd_encdec(tier: &str, out: &str, which: &str) {
     quiet_panics();
@@ -270,6 +292,11 @@ pub fn cmd_encdec(tier: &str, out: &str, which: &str) {
         };
         put(1, enc_buf_vec(p));
         put(2, enc_buf_n(big, p));
+        if p.len() <= 1100 {
+            // the same through iterators with an inexact size_hint: the result must not depend on the hint
+            put(4, enc_buf_vec_iter(p));
+            put(5, enc_buf_n_iter(big, p));
+        }
         // poll the exhausted iterator far beyond any 8-bit (always) or 16-bit (some payloads) internal counter
         let extra_polls = if p.len() % 97 == 3 || p.is_empty() { 70000 } else { 300 };
         let it = enc_iter(p, extra_polls);
@@ -410,6 +437,19 @@ pub fn stream_families(tier: &str, fams: &[&str], rng: &mut Rng, f: &mut dyn FnM
                                 }
                                 t.pop();
                             }
+                        }
+                    }
+                }
+            }
+            "histframe" => {
+                for (_, h) in idle_histories() {
+                    let hl = expand(&h).len();
+                    for g in [vec![], vec![0x55u8], vec![0x1b], vec![0x1b, 0x1b, 0x1b, 0x1b, 0x01]] {
+                        for m in [vec![], vec![0x42u8], vec![0, 0], vec![0x1b, 0x1b, 0x1b, 0x1b, 0x42, 0]] {
+                            let mut t = h.clone();
+                            t.extend(g.iter().map(|b| Tok::B(*b)));
+                            t.push(Tok::Frame(m));
+                            f(&expand(&t), hl);
                         }
                     }
                 }
@@ -609,5 +649,8 @@ pub fn idle_histories() -> Vec<(&'static str, Vec<Tok>)> {
         ("partialstartfinalize", START[..6].iter().cloned().map(Tok::B).chain([Tok::Fin]).collect()),
         ("okthen1breset", vec![Tok::Frame(vec![0x33]), Tok::B(0x1b), Tok::B(0x1b), Tok::B(0x1b), Tok::Rst]),
         ("noisefinalize", vec![Tok::B(0x55), Tok::B(0x66), Tok::Fin]),
+        ("startreset", vec![Tok::Start, Tok::Rst]),
+        ("startfinalize", vec![Tok::Start, Tok::Fin]),
+        ("noisestartreset", vec![Tok::B(0x55), Tok::Start, Tok::Rst]),
     ]
 }
